@@ -480,6 +480,70 @@ for seed in range(5):
                 u.oblige(p, f"yaml.to_pipeline[{order},{nmodels}]", bool(ok), {}, rp)
             u.cover(f"yaml.cover[{order},{nmodels}]", ps, lambda p: p.kind == "return")
 
+    # ALIASES: a model entry written once with a YAML anchor and re-used (`- *entry`) is ONE mapping object appearing at several places of
+    # the document; every occurrence is built with the configured name, function, switch and arguments, and the document is not changed
+    rp_alias = probe_replay("a model entry re-used through a YAML alias is built with its configuration at every occurrence", """
+import yaml
+from pyxel.configuration.configuration import to_pipeline
+text = (
+    'charge_generation:\\n'
+    '  - &entry\\n'
+    '    name: probe\\n'
+    '    func: verif_probes.probe\\n'
+    '    enabled: false\\n'
+    '    arguments: {level: 3, option: foo}\\n'
+    'photon_collection:\\n'
+    '  - *entry\\n'
+    '  - {name: other, func: verif_probes.probe, enabled: true, arguments: {level: 1}}\\n'
+    'charge_measurement:\\n'
+    '  - *entry\\n')
+doc = yaml.safe_load(text)
+before = yaml.safe_load(text)
+p = to_pipeline(doc)
+got = [(g, [(m.name, m.enabled, dict(m.arguments)) for m in getattr(p, g).models]) for g in ('photon_collection', 'charge_generation', 'charge_measurement')]
+want_probe = ('probe', False, {'level': 3, 'option': 'foo'})
+VIOLATED = got != [('photon_collection', [want_probe, ('other', True, {'level': 1})]), ('charge_generation', [want_probe]), ('charge_measurement', [want_probe])]
+DETAIL = f'models built from the aliased entry: {got}'
+""")
+    for args_given in (True, False):
+        hold = {}
+
+        def setup_alias(ex, args_given=args_given):
+            entry_items = [(VStr("func"), VStr(z3.String("f_shared"))), (VStr("name"), VStr(z3.String("n_shared"))), (VStr("enabled"), VBool(z3.Bool("e_shared")))]
+            if args_given:
+                entry_items.append((VStr("arguments"), ex.st.alloc(HDict([(VStr("level"), VInt(z3.Int("shared_level")))]))))
+            entry = ex.st.alloc(HDict(entry_items))
+            d = ex.st.alloc(HDict([(VStr("photon_collection"), ex.st.alloc(HList([entry]))), (VStr("charge_generation"), ex.st.alloc(HList([entry, entry]))),
+                                   (VStr("charge_measurement"), ex.st.alloc(HList([entry])))]))
+            from . import C08 as _C08
+            hold.update(upto=ex.st.next_addr, snap=_C08.snapshot(ex), entry={entry.addr} | ({entry_items[-1][1].addr} if args_given else set()))
+            return [d], {}
+        ps = u.paths(fi, setup_alias, cfg, label=f"to_pipeline[aliased entry, arguments {'given' if args_given else 'absent'}]")
+        tag = "with arguments" if args_given else "without arguments"
+        for p in ps:
+            if p.kind != "return":
+                u.oblige(p, f"yaml.to_pipeline.alias[{tag}].returns", False, {"exc": p.exc_name()}, rp_alias)
+                continue
+            pipe = p.st.cell(p.value)
+            ok, n_built = True, 0
+            for g, n in (("photon_collection", 1), ("charge_generation", 2), ("charge_measurement", 1)):
+                grp = pipe.fields.get("_" + g)
+                ms = (p.ex.try_list(p.st.cell(grp).fields["models"]) or []) if isinstance(grp, VRef) else []
+                ok = ok and len(ms) == n
+                for m in ms:
+                    mc = p.st.cell(m)
+                    n_built += 1
+                    ok = ok and str(mc.fields["_name"].v) == "n_shared" and str(mc.fields["_func_name"].v) == "f_shared" and str(mc.fields["enabled"].v) == "e_shared"
+                    ad = p.st.cell(p.st.cell(mc.fields["_arguments"]).fields["_arguments"]).items if isinstance(mc.fields.get("_arguments"), VRef) else None
+                    ok = ok and ad is not None and ([(str(k.v), str(v.v)) for k, v in ad] == ([("level", "shared_level")] if args_given else []))
+            u.oblige(p, f"yaml.to_pipeline.alias[{tag}].every_occurrence_configured", bool(ok and n_built == 4), {"built": n_built}, rp_alias)
+            from . import C08 as _C08
+            # the ENTRY mapping (and its arguments) is what the other occurrences will be built from: it must be left as it was
+            # (to_pipeline replaces the top-level lists of the document by the built groups: not part of this obligation)
+            touched = [c for c in _C08.changed(p.ex, hold["snap"], hold["upto"]) if c[0][0] in hold["entry"]]
+            u.oblige(p, f"yaml.to_pipeline.alias[{tag}].entry_unchanged", not touched, {"changed": str(touched)[:200]}, rp_alias)
+        u.cover(f"yaml.alias.cover[{tag}]", ps, lambda p: p.kind == "return")
+
     def setup_bad(ex):
         d = ex.st.alloc(HDict([(VStr("photon_colection"), NONE)]))
         return [d], {}
